@@ -59,3 +59,12 @@ impl From<Not> for Variant {
         Variant::Not(not)
     }
 }
+
+#[cfg(vrl_verif)]
+impl Unary {
+    /// verification hook: the unary variant.
+    #[must_use]
+    pub fn verif_variant(&self) -> &Variant {
+        &self.variant
+    }
+}
